@@ -1,6 +1,6 @@
 /-
 Strict round trip (C01/C02), part 5: `compute_error` (the `i32` path with overflow checks and the
-wrapping `i64` path) against the exact LPC residual `lpcResidual` a decoder inverts.
+`i64` path with its range flag) against the exact LPC residual `lpcResidual` a decoder inverts.
 -/
 import FlacVerif.Lemmas.StrictFixed
 namespace FlacVerif
@@ -186,46 +186,96 @@ theorem map_ite_drop (f : Nat → Int) (n o : Nat) :
   rw [List.mem_range'_1] at ht
   rw [if_neg (by omega)]
 
-/-- `compute_error` takes the wrapping `i64` path (instead of the checked `i32` path). -/
+/-- `compute_error` takes the `i64` path (instead of the checked `i32` path):
+`maxabs(signal) · (Σ|coef| + 1) ≥ i32::MAX`. -/
 def lpcWide (coefs xs : List Int) : Prop :=
-  ¬ (xs.foldl (fun m x => max m x.natAbs) 0) * (coefs.foldl (fun s c => s + c.natAbs) 0) < 2 ^ 31 - 1
+  ¬ (xs.foldl (fun m x => max m x.natAbs) 0) * ((coefs.foldl (fun s c => s + c.natAbs) 0) + 1) < 2 ^ 31 - 1
 
 instance (coefs xs : List Int) : Decidable (lpcWide coefs xs) := by unfold lpcWide; infer_instance
 
-/-- Whenever `compute_error` returns, its result has one entry per sample, every entry is an `i32`,
-and — provided the exact residual fits 32 bits in case the wrapping path was taken — the entries after
-the warm-up are the exact LPC residual. -/
-theorem computeError_spec (coefs : List Int) (shift : Nat) (xs errors : List Int)
-    (h : computeError coefs shift xs = some errors)
-    (hfit : lpcWide coefs xs → ∀ e ∈ lpcResidual coefs shift xs, fitsI32 e = true) :
-    errors.length = xs.length ∧ (∀ e ∈ errors, fitsI32 e = true) ∧
-    errors.drop coefs.length = lpcResidual coefs shift xs := by
+theorem computeErrorExact64_eq (coefs : List Int) (shift : Nat) (xs : List Int) :
+    computeErrorExact64 coefs shift xs =
+      (List.range xs.length).map (fun t => if t < coefs.length then 0 else errE coefs shift xs t) := rfl
+
+theorem computeError64_eq (coefs : List Int) (shift : Nat) (xs : List Int) :
+    computeError64 coefs shift xs =
+      (List.range xs.length).map (fun t => if t < coefs.length then 0 else wrap32 (errE coefs shift xs t)) := rfl
+
+/-- The flag of the `i64` path says: every exact error after the warm-up lies in `-(2^31-1) ..= 2^31-1`. -/
+theorem fitsResidual64_iff (coefs : List Int) (shift : Nat) (xs : List Int) :
+    fitsResidual64 coefs shift xs = true ↔
+      ∀ t, coefs.length ≤ t → t < xs.length → (errE coefs shift xs t).natAbs ≤ 2 ^ 31 - 1 := by
+  unfold fitsResidual64
+  rw [computeErrorExact64_eq, List.all_eq_true]
+  simp only [List.mem_map, List.mem_range, decide_eq_true_eq]
+  constructor
+  · intro h t h1 h2
+    have := h _ ⟨t, h2, rfl⟩
+    rwa [if_neg (by omega)] at this
+  · rintro h e ⟨t, ht, rfl⟩
+    split
+    · decide
+    · exact h t (by omega) ht
+
+/-- The exact LPC residual lies in `-(2^31-1) ..= 2^31-1` (the range of FLAC residuals) — what the flag
+of `compute_error` reports on the `i64` path. -/
+theorem fitsResidual64_iff_residual (coefs : List Int) (shift : Nat) (xs : List Int) :
+    fitsResidual64 coefs shift xs = true ↔ ∀ e ∈ lpcResidual coefs shift xs, e.natAbs ≤ 2 ^ 31 - 1 := by
+  rw [fitsResidual64_iff, lpcResidual_eq]
+  simp only [List.mem_map, List.mem_range'_1]
+  constructor
+  · rintro h e ⟨t, ⟨h1, h2⟩, rfl⟩
+    exact h t h1 (by omega)
+  · intro h t h1 h2
+    exact h _ ⟨t, ⟨h1, by omega⟩, rfl⟩
+
+/-- Whenever `compute_error` returns, its buffer has one entry per sample and every entry is an `i32`. -/
+theorem computeError_fits (coefs : List Int) (shift : Nat) (xs errors : List Int) {fits : Bool}
+    (h : computeError coefs shift xs = some (errors, fits)) :
+    errors.length = xs.length ∧ ∀ e ∈ errors, fitsI32 e = true := by
   unfold computeError at h
   simp only [] at h
   split at h
-  · obtain ⟨e1, e2⟩ := computeError32_spec coefs shift xs errors h
-    refine ⟨by rw [e1]; simp, e2, ?_⟩
+  · simp only [Option.map_eq_some_iff, Prod.mk.injEq] at h
+    obtain ⟨es, h, rfl, _⟩ := h
+    obtain ⟨e1, e2⟩ := computeError32_spec coefs shift xs es h
+    exact ⟨by rw [e1]; simp, e2⟩
+  · simp only [Option.some.injEq, Prod.mk.injEq] at h
+    obtain ⟨rfl, _⟩ := h
+    refine ⟨by simp [computeError64], ?_⟩
+    intro e he
+    simp only [computeError64, List.mem_map, List.mem_range] at he
+    obtain ⟨t, _, rfl⟩ := he
+    split
+    · decide
+    · exact wrap32_fits _
+
+/-- **`compute_error` with flag `true`, for ANY coefficients, shift and signal.** The buffer has one
+entry per sample, every entry is an `i32`, and the entries after the warm-up are the EXACT LPC residual
+(no wrapping happened): on the checked `i32` path an overflow is a panic, and on the `i64` path the flag
+says the exact values lie in `-(2^31-1) ..= 2^31-1`. No oracle hypothesis. -/
+theorem computeError_spec (coefs : List Int) (shift : Nat) (xs errors : List Int)
+    (h : computeError coefs shift xs = some (errors, true)) :
+    errors.length = xs.length ∧ (∀ e ∈ errors, fitsI32 e = true) ∧
+    errors.drop coefs.length = lpcResidual coefs shift xs := by
+  obtain ⟨hl, hf⟩ := computeError_fits coefs shift xs errors h
+  refine ⟨hl, hf, ?_⟩
+  unfold computeError at h
+  simp only [] at h
+  split at h
+  · simp only [Option.map_eq_some_iff, Prod.mk.injEq] at h
+    obtain ⟨es, h, rfl, _⟩ := h
+    obtain ⟨e1, _⟩ := computeError32_spec coefs shift xs es h
     rw [e1, map_ite_drop, lpcResidual_eq]
-  · rename_i hw
-    simp only [Option.some.injEq] at h
-    subst h
-    have hfit' := hfit hw
-    rw [lpcResidual_eq] at hfit'
-    refine ⟨by simp [computeError64], ?_, ?_⟩
-    · intro e he
-      simp only [computeError64, List.mem_map, List.mem_range] at he
-      obtain ⟨t, _, rfl⟩ := he
-      split
-      · decide
-      · exact wrap32_fits _
-    · have : computeError64 coefs shift xs =
-          (List.range xs.length).map (fun t => if t < coefs.length then 0 else wrap32 (errE coefs shift xs t)) := rfl
-      rw [this, map_ite_drop, lpcResidual_eq]
-      apply List.map_congr_left
-      intro t ht
-      have := hfit' (errE coefs shift xs t) (List.mem_map.2 ⟨t, ht, rfl⟩)
-      rw [fitsI32_iff] at this
-      exact wrap32_id _ this.1 this.2
+  · simp only [Option.some.injEq, Prod.mk.injEq] at h
+    obtain ⟨rfl, hflag⟩ := h
+    rw [fitsResidual64_iff] at hflag
+    rw [computeError64_eq, map_ite_drop, lpcResidual_eq]
+    apply List.map_congr_left
+    intro t ht
+    rw [List.mem_range'_1] at ht
+    have := hflag t ht.1 (by omega)
+    exact wrap32_id _ (by omega) (by omega)
 
 end Strict
 end FlacVerif
